@@ -193,7 +193,12 @@ def run(ctx):
                     if callee_is(t, 'Result::map_err', 'Result::unwrap_or_else', 'Result::or_else') and any(x['k'] in ('move', 'copy') and x['pl']['l'] == dst for x in t['args'][1:]):
                         if is_source(P.operand(pf, t['args'][0], at=bb)):
                             return True
-        return bool(guarded_by_variant(F, P, g, i, is_source, ['Err', 'Break']))
+        if guarded_by_variant(F, P, g, i, is_source, ['Err', 'Break']):
+            return True
+        from .common import guarded_by_bool
+        is_err = lambda x: any(P.is_call(r, 'Result::is_err') and is_source(P.args_of(r)[0]) for r, _ in P.root(x, inline=False))
+        is_ok = lambda x: any(P.is_call(r, 'Result::is_ok') and is_source(P.args_of(r)[0]) for r, _ in P.root(x, inline=False))
+        return bool(guarded_by_bool(F, P, g, i, is_err, True) or guarded_by_bool(F, P, g, i, is_ok, False))
 
     sh = list(F.all_aggregates('client::RpcError', 'Shutdown'))
     call = F.inherent('client::Channel', 'call')
